@@ -102,8 +102,8 @@ impl ArgScanner<'_> {
         if let Some(ver) = arg.strip_prefix("--bpaf-complete-rev=") {
             if let Ok(ver) = ver.parse::<usize>() {
                 self.revision = Some(ver);
+                return true;
             }
-            return true;
         }
         false
     }
